@@ -18,6 +18,8 @@ pub struct UniBudget {
     pub schedules_per_variant: u64,
     /// EDF: anchored worst-case candidates per task
     pub anchored_per_task: u64,
+    /// thorough tier: a quarter of the inputs uses larger task sets / parameters
+    pub wide: bool,
 }
 
 pub fn variants_of(prop: &str) -> &'static [Variant] {
@@ -161,7 +163,7 @@ pub struct UniShared<'a> {
 pub fn uni_item(sh: &UniShared, k: u64, acc: &mut Acc, note: &dyn Fn(&str)) {
     let mut rng = Rng::new(Rng::run_seed(sh.root_seed, sh.prop, k));
     let mut in_rng = rng.split("input");
-    let sw = TaskSetSwarm::random(&mut in_rng);
+    let sw = TaskSetSwarm::random_wide(&mut in_rng, sh.budget.wide);
     let mut ts = random_taskset(&mut in_rng, &sw);
     let repr = rng.split("repr").below(4) as u8;
     // The divergence limit is drawn once the harness knows the synchronous busy window it
@@ -742,6 +744,7 @@ pub fn run_uni_property(opt: &Options, prop: &'static str) -> i32 {
                 _ => 80,
             },
             anchored_per_task: 12,
+            wide: true,
         }
     } else {
         UniBudget {
@@ -755,6 +758,7 @@ pub fn run_uni_property(opt: &Options, prop: &'static str) -> i32 {
                 _ => 16,
             },
             anchored_per_task: 4,
+            wide: false,
         }
     };
     let all_fp = Distinct::new(30);
